@@ -248,6 +248,53 @@ def rule_members(chk, prog, tier):
                     if run.outcome not in ('return', 'terminal:error'):
                         raise AnalysisBroken('addmember %s: %s %s' % (key, run.outcome, run.detail))
                     r.instance(got_bad == bad, key, 'decl.c:%s' % fn.get('line'), 'must be %s; cproc %s' % ('diagnosed' if bad else 'accepted', 'diagnoses it (%s)' % run.detail if got_bad else 'accepts it'))
+    # ---- member sequences: incomplete, function and flexible array members
+    SEQS = [['fam'], ['int', 'fam'], ['ubf', 'fam'], ['anon', 'fam'], ['int', 'int', 'fam'], ['int', 'fam', 'int'], ['fam', 'int'], ['int', 'incS'], ['incS'], ['int', 'func'], ['int', 'flexS'], ['flexS'], ['int', 'void'],
+            ['int', 'arr'], ['arr', 'fam']]
+    for kind in ('TYPESTRUCT', 'TYPEUNION'):
+        for seq in SEQS:
+            def runner(it):
+                w = World(prog, it=it, target='x86_64-sysv')
+                t = w.mkstruct(size=0, align=0, kind=kind); t.obj.f[('flexible',)] = 0
+                b = Obj('builder', 'local')
+                b.f[('type',)] = t; b.f[('last',)] = Ptr(t.obj, ('u', 'structunion', 'members')); b.f[('bits',)] = 0; b.f[('pack',)] = 0
+                for k, m in enumerate(seq):
+                    name = Ptr(it.mkstr(list(b'm%d' % k), 'm%d' % k), (0,)); width = 2 ** 64 - 1
+                    if m == 'int': mt = w.t('int')
+                    elif m == 'void': mt = w.t('void')
+                    elif m == 'arr': mt = it.call('mkarraytype', [w.t('int'), 0, 3])
+                    elif m == 'fam': mt = it.call('mkarraytype', [w.t('int'), 0, 0])
+                    elif m == 'ubf': mt = w.t('int'); name = None; width = 3
+                    elif m == 'incS': mt = w.mkstruct(size=0, align=0); mt.obj.f[('incomplete',)] = 1; mt.obj.f[('flexible',)] = 0
+                    elif m == 'func':
+                        mt = it.call('mktype', [ev(prog, 'TYPEFUNC'), 0]); mt.obj.f.update({('base',): w.t('int'), ('qual',): 0, ('size',): 0, ('align',): 0, ('incomplete',): 0, ('flexible',): 0})
+                    elif m in ('anon', 'flexS'):
+                        mt = w.mkstruct(size=4, align=4); mt.obj.f[('flexible',)] = int(m == 'flexS'); mt.obj.f[('incomplete',)] = 0
+                        mo = Obj('im', 'heap'); mo.f.update({('name',): Ptr(it.mkstr(list(b'inner'), 'inner'), (0,)), ('type',): w.t('int'), ('qual',): 0, ('offset',): 0, ('bits', 'before'): 0, ('bits', 'after'): 0, ('next',): None})
+                        mt.obj.f[('u', 'structunion', 'members')] = Ptr(mo, ())
+                        if m == 'anon': name = None
+                    it.event('member', k)
+                    it.call(fn, [Ptr(b, ()), StructVal({('type',): mt, ('qual',): 0, ('expr',): None}), name, 0, width])
+                return 'accepted'
+            runs = explore(prog, runner, M, max_runs=4, on_unsupported='keep')
+            key = 'members:%s{%s}' % (kind[4:].lower(), ', '.join(seq))
+            if len(runs) != 1 or runs[0].outcome not in ('return', 'terminal:error'):
+                raise AnalysisBroken('addmember %s: %s' % (key, [(x.outcome, x.detail) for x in runs][:2]))
+            # reference (C11 6.7.2.1p3, p18): a member has a complete object type, except that the last member of a structure with more than one named member may be an incomplete array;
+            # such a structure (and a union containing one, recursively) is not a member of a structure
+            bad = False; named = 0; flexible = False
+            for m in seq:
+                if flexible and kind == 'TYPESTRUCT': bad = True; break
+                if m in ('incS', 'func', 'void'): bad = True; break
+                if m == 'fam':
+                    if kind != 'TYPESTRUCT' or named == 0: bad = True; break
+                    flexible = True
+                if m == 'flexS':
+                    if kind == 'TYPESTRUCT': bad = True; break
+                    flexible = True
+                if m != 'ubf': named += 1
+            got_bad = runs[0].outcome == 'terminal:error'
+            r.instance(got_bad == bad, key, 'decl.c:%s' % fn.get('line'), 'must be %s; cproc %s' % ('diagnosed' if bad else 'accepted', 'diagnoses it (%s)' % runs[0].detail if got_bad else 'accepts it'))
     r.exhaustive = True
 
 
@@ -892,6 +939,167 @@ def rule_specifier_kind(chk, prog, tier):
     r.exhaustive = True
 
 
+# ------------------------------------------------------------------ C10.q struct-declaration syntax
+
+def rule_structdecl_syntax(chk, prog, tier):
+    r = chk.rule('C10.q', 'a struct-declaration is `specifiers member-declarator {, member-declarator} ;` (a declarator, a declarator with `: width`, or `: width` alone; no declarator only for an anonymous struct/union): '
+                 'structdecl() accepts exactly these token sequences, hands each member to addmember in order, consumes nothing beyond the `;`, and diagnoses every other sequence - a stray token is never skipped',
+                 floor=300, oracle='C11 6.7.2.1 (syntax)')
+    import re, itertools
+    fn = prog.require_func('structdecl', 'decl.c')
+    ALPHA = ['T', 'S', 'I', ':', 'N', ',', ';', '.', ')']
+    valid = []
+    mds = [['I'], ['I', ':', 'N'], [':', 'N']]
+    for n in (1, 2, 3):
+        for combo in itertools.product(mds, repeat=n):
+            seq = ['T']
+            for k, md in enumerate(combo):
+                if k: seq.append(',')
+                seq += md
+            valid.append(seq + [';'])
+    valid += [['S', ';'], ['S', 'I', ';']]
+    cases = {}
+    for v in valid:
+        cases[tuple(v)] = None
+        for i in range(len(v)):
+            cases[tuple(v[:i] + v[i + 1:])] = None                       # deletion
+            cases[tuple(v[:i] + [v[i]] + v[i:])] = None                  # duplication
+            for a in ALPHA:
+                if a != v[i]: cases[tuple(v[:i] + [a] + v[i + 1:])] = None   # replacement
+                cases[tuple(v[:i] + [a] + v[i:])] = None                 # insertion
+    cases = sorted(cases)
+    if tier == 'quick': cases = cases[::3]
+    RX = re.compile(r'(?:S;|[TS](?:I:N|I|:N)(?:,(?:I:N|I|:N))*;)')
+    TK = {'T': 'TINT', 'S': 'TSTRUCT', 'I': 'TIDENT', ':': 'TCOLON', 'N': 'TNUMBER', ',': 'TCOMMA', ';': 'TSEMICOLON', '.': 'TPERIOD', ')': 'TRPAREN'}
+    def work(chunk):
+        out = []
+        for seq in chunk:
+            def runner(it):
+                w = World(prog, it=it, target='x86_64-sysv')
+                toks = list(seq) + ['E']
+                tokobj = it.gobj('tok'); st = {'i': 0, 'n': 0}
+                anon = w.mkstruct(size=4, align=4); anon.obj.f[('u', 'structunion', 'tag')] = None
+                def cur(): return toks[min(st['i'], len(toks) - 1)]
+                def load():
+                    tokobj.f[('kind',)] = ev(prog, TK.get(cur(), 'TEOF')); tokobj.f[('lit',)] = None
+                    tokobj.f[('loc', 'file')] = None; tokobj.f[('loc', 'line')] = 1; tokobj.f[('loc', 'col')] = 1
+                def nxt(i2, a, e): st['i'] += 1; load(); return None
+                def consume(i2, a, e):
+                    if tokobj.f[('kind',)] == a[0]: nxt(i2, a, e); return 1
+                    return 0
+                def expect(i2, a, e):
+                    if tokobj.f[('kind',)] != a[0]: raise Terminal('error', 'expected token')
+                    nxt(i2, a, e); return None
+                def declspecs(i2, a, e):
+                    if a[3] is not None: i2.assign(a[3].obj, a[3].path, 0)
+                    t = None
+                    if cur() == 'T': t = w.t('int'); nxt(i2, a, e)
+                    elif cur() == 'S': t = anon; nxt(i2, a, e)
+                    return StructVal({('type',): t, ('qual',): 0, ('expr',): None})
+                def declarator(i2, a, e):
+                    if cur() != 'I': raise Terminal('error', 'expected declarator')
+                    st['n'] += 1; nm = 'm%d' % st['n']
+                    i2.assign(a[2].obj, a[2].path, Ptr(i2.mkstr(list(nm.encode()), nm), (0,)))
+                    nxt(i2, a, e); return a[1]
+                def intconstexpr(i2, a, e):
+                    if cur() != 'N': raise Terminal('error', 'expected expression')
+                    nxt(i2, a, e); return 3
+                def addmember(i2, a, e):
+                    i2.event('member', 'named' if a[2] is not None else 'unnamed', None if a[4] in (2 ** 64 - 1, -1) else a[4]); return None
+                it.models.update({'next': nxt, 'consume': consume, 'expect': expect, 'declspecs': declspecs, 'declarator': declarator, 'intconstexpr': intconstexpr, 'addmember': addmember,
+                                  'staticassert': lambda i2, a, e: 0, 'attr': lambda i2, a, e: 0, 'gnuattr': lambda i2, a, e: 0,
+                                  'error': lambda i2, a, e: (_ for _ in ()).throw(Terminal('error', cmodel.fmt_of(i2, a, 1))),
+                                  'fatal': lambda i2, a, e: (_ for _ in ()).throw(Terminal('fatal', cmodel.fmt_of(i2, a, 0)))})
+                load()
+                it.call(fn, [Ptr(Obj('scope', 'heap'), ()), Ptr(Obj('builder', 'local'), ())])
+                return st['i'], [(e_[1], e_[2]) for e_ in it.events if e_[0] == 'member']
+            runs = explore(prog, runner, {}, max_runs=4, on_unsupported='keep')
+            if len(runs) != 1 or runs[0].outcome not in ('return', 'terminal:error'):
+                out.append((seq, 'broken', str([(x.outcome, x.detail) for x in runs][:2]))); continue
+            out.append((seq, runs[0].outcome, runs[0].value if runs[0].outcome == 'return' else runs[0].detail))
+        return out
+    import par
+    chunks = [cases[i::32] for i in range(32)]
+    for res in par.pmap(work, chunks):
+        for seq, outcome, val in res:
+            text = ''.join(seq); key = 'structdecl:%s' % ' '.join(seq)
+            if outcome == 'broken': raise AnalysisBroken('%s: %s' % (key, val))
+            m = RX.match(text)
+            if m:
+                body = m.group(0)[1:-1]
+                want = [] if m.group(0) == 'S;' else [('unnamed' if md.startswith(':') else 'named', 3 if ':' in md else None) for md in body.split(',')]
+                if m.group(0) == 'S;': want = [('unnamed', None)]
+                ok = outcome == 'return' and val[0] == len(m.group(0)) and val[1] == want
+                r.instance(ok, key, 'decl.c:structdecl', 'valid struct-declaration of %d tokens declaring %s; cproc: %s %s' % (len(m.group(0)), want, outcome, val))
+            else:
+                r.instance(outcome == 'terminal:error', key, 'decl.c:structdecl', 'not a struct-declaration: must be diagnosed; cproc accepts it, consuming %s tokens and declaring %s' % (val if outcome == 'return' else ('', ''))[:2] if outcome == 'return' else 'diagnosed')
+    r.exhaustive = False
+
+
+# ------------------------------------------------------------------ C10.p restrict
+
+def rule_restrict(chk, prog, tier):
+    r = chk.rule('C10.p', 'only pointer types whose referenced type is an object (or incomplete) type may be restrict-qualified: restrict on an arithmetic type, on a pointer to function, or on the element of such an array is diagnosed wherever it '
+                 'enters the declarator (specifier qualifiers, typedef names, pointer declarators); restrict-qualified object pointers, and const in the same places, are accepted',
+                 floor=16, oracle='C11 6.7.3p2')
+    fn = prog.require_func('declarator', 'decl.c')
+    QR, QC = ev(prog, 'QUALRESTRICT'), ev(prog, 'QUALCONST')
+    # (base type, declarator tokens): `R` = restrict, `C` = const
+    CASES = [('int', 'R', 'x', False), ('ptr', 'R', 'x', True), ('fptr', 'R', 'x', False), ('int', '', '* R x', True), ('int', 'R', '* x', False), ('int', '', '* R * x', True), ('int', '', '* * R x', True),
+             ('int', '', '( * R x ) ( )', False), ('int', '', '* R x [ 3 ]', True), ('int', 'R', 'x [ 3 ]', False), ('ptr', 'R', 'x [ 3 ]', True), ('struct', 'R', 'x', False), ('struct', '', '* R x', True),
+             ('int', 'C', 'x', True), ('int', '', '* C x', True), ('int', '', '( * C x ) ( )', True), ('fptr', 'C', 'x', True), ('int', 'C', 'x [ 3 ]', True), ('ptr', 'R', '* x', True), ('fptr', 'R', '* x', False),
+             ('void', '', '* R x', True), ('void', 'R', '* x', False)]
+    for base, bq, decl, ok in CASES:
+        def runner(it):
+            w = World(prog, it=it, target='x86_64-sysv')
+            ft = it.call('mktype', [ev(prog, 'TYPEFUNC'), 0]); ft.obj.f.update({('base',): w.t('int'), ('qual',): 0, ('size',): 0, ('align',): 0, ('incomplete',): 0, ('u', 'func', 'params'): None, ('u', 'func', 'nparam'): 0, ('u', 'func', 'isvararg'): 0})
+            B = {'int': w.t('int'), 'void': w.t('void'), 'ptr': w.mkptr(w.t('int')), 'fptr': w.mkptr(ft), 'struct': w.mkstruct(size=8, align=4)}[base]
+            TK = {'*': 'TMUL', 'R': 'TRESTRICT', 'C': 'TCONST', 'x': 'TIDENT', '(': 'TLPAREN', ')': 'TRPAREN', '[': 'TLBRACK', ']': 'TRBRACK', '3': 'TNUMBER'}
+            toks = decl.split() + [';']
+            tokobj = it.gobj('tok'); st = {'i': 0}
+            def cur(): return toks[min(st['i'], len(toks) - 1)]
+            def load():
+                tokobj.f[('kind',)] = ev(prog, TK.get(cur(), 'TSEMICOLON'))
+                tokobj.f[('lit',)] = Ptr(it.mkstr(list(b'x'), 'x'), (0,)) if cur() == 'x' else None
+                tokobj.f[('loc', 'file')] = None; tokobj.f[('loc', 'line')] = 1; tokobj.f[('loc', 'col')] = 1
+            def nxt(i2, a, e): st['i'] += 1; load(); return None
+            def consume(i2, a, e):
+                if tokobj.f[('kind',)] == a[0] and cur() != '3': nxt(i2, a, e); return 1
+                return 0
+            def expect(i2, a, e):
+                if tokobj.f[('kind',)] != a[0]: raise Terminal('error', 'expected token')
+                nxt(i2, a, e); return None
+            def peek(i2, a, e):
+                k = toks[min(st['i'] + 1, len(toks) - 1)]
+                if k != '3' and ev(prog, TK.get(k, 'TSEMICOLON')) == a[0]: st['i'] += 2; load(); return 1
+                return 0
+            def assignexpr(i2, a, e):
+                if cur() != '3': raise Terminal('error', 'expected expression')
+                nxt(i2, a, e); return w.mkexpr('EXPRCONST', w.t('int'), u__constant__u=3)
+            def mkscope(i2, a, e):
+                o = Obj('scope', 'heap'); o.f[('parent',)] = a[0]; return Ptr(o, ())
+            it.models.update({'next': nxt, 'consume': consume, 'expect': expect, 'peek': peek, 'assignexpr': assignexpr, 'mkscope': mkscope, 'delscope': lambda i2, a, e: a[0].obj.f[('parent',)],
+                              'eval': lambda i2, a, e: a[0], 'attr': lambda i2, a, e: 0, 'gnuattr': lambda i2, a, e: 0, 'istypename': lambda i2, a, e: 0,
+                              'scopeputdecl': lambda i2, a, e: None, 'scopegetdecl': lambda i2, a, e: None,
+                              'xmalloc': lambda i2, a, e: Ptr(Obj('heap@%s' % e.get('line'), 'heap'), ()),
+                              'error': lambda i2, a, e: (_ for _ in ()).throw(Terminal('error', cmodel.fmt_of(i2, a, 1))),
+                              'fatal': lambda i2, a, e: (_ for _ in ()).throw(Terminal('fatal', cmodel.fmt_of(i2, a, 0)))})
+            load()
+            bqv = {'': 0, 'R': QR, 'C': QC}[bq]
+            nameobj = Obj('name', 'local'); nameobj.f[()] = None
+            it.call(fn, [Ptr(Obj('filescope', 'heap'), ()), StructVal({('type',): B, ('qual',): bqv, ('expr',): None}), Ptr(nameobj, ()), None, 0])
+            return cur()
+        runs = explore(prog, runner, {}, max_runs=4, on_unsupported='keep')
+        BN = {'int': 'int', 'void': 'void', 'ptr': 'P /* int * */', 'fptr': 'FP /* int (*)(void) */', 'struct': 'struct s'}[base]
+        key = 'restrict:%s%s %s' % ({'': '', 'R': 'restrict ', 'C': 'const '}[bq], BN, decl.replace('R', 'restrict').replace('C', 'const'))
+        if len(runs) != 1 or runs[0].outcome not in ('return', 'terminal:error'):
+            raise AnalysisBroken('%s: %s' % (key, [(x.outcome, x.detail) for x in runs][:2]))
+        got_ok = runs[0].outcome == 'return'
+        if got_ok and runs[0].value != ';': raise AnalysisBroken('%s: declarator not consumed (at %s)' % (key, runs[0].value))
+        r.instance(got_ok == ok, key, 'decl.c:declarator', 'must be %s; cproc %s %s' % ('accepted' if ok else 'diagnosed', 'accepts it' if got_ok else 'diagnoses it:', '' if got_ok else runs[0].detail))
+    r.exhaustive = False
+
+
 def run(chk, tier):
     from props import c01f
     prog = facts.programs()['cproc-qbe']
@@ -913,5 +1121,9 @@ def run(chk, tier):
     chk.guard('C10.m', lambda: rule_incdec(chk, prog, tier))
     chk.guard('C10.n', lambda: rule_incomplete_signatures(chk, prog, tier))
     chk.guard('C10.o', lambda: rule_specifier_kind(chk, prog, tier))
+    chk.guard('C10.p', lambda: rule_restrict(chk, prog, tier))
+    chk.guard('C10.q', lambda: rule_structdecl_syntax(chk, prog, tier))
+    from props import c08
+    chk.guard('C08.e', lambda: c08.rule_valist(chk, prog, tier))        # va_arg of a structure or union (unsupported) is diagnosed
     from props import c09
     chk.guard('C09.f', lambda: c09.rule_redecl_types(chk, prog, tier))
